@@ -160,6 +160,33 @@ func c03Gen(c *core.Ctx) func(yield func(c03Case) bool) {
 		if !ok {
 			return
 		}
+		// one target through two points of one holder (a single-valued point and a slice member)
+		allGraphs(3, []int{scen.ENone, scen.EName, scen.ESlice, scen.EBoth}, false, func(e [][]int) bool {
+			anyBoth := false
+			for i := range e {
+				for _, k := range e[i] {
+					anyBoth = anyBoth || k == scen.EBoth
+				}
+			}
+			if !anyBoth {
+				return true
+			}
+			for node := 0; node < 3; node++ {
+				for _, plan := range []int{scen.WrapAfter, scen.WrapEarlyAfterDiff, scen.WrapBefore} {
+					w := []int{0, 0, 0}
+					w[node] = plan
+					for _, base := range [][]int{{0, 1, 2}, {2, 1, 0}} {
+						if ok = yield(c03Case{scen.GraphProg{N: 3, Edges: e, Wrap: w, Base: base, Family: "n3-twopoints"}, 0}); !ok {
+							return false
+						}
+					}
+				}
+			}
+			return true
+		})
+		if !ok {
+			return
+		}
 		// substitutes of the component's own type (a post-processor swaps in another instance)
 		allGraphs(3, []int{scen.ENone, scen.EName, scen.EPtr}, false, func(e [][]int) bool {
 			for node := 0; node < 3; node++ {
